@@ -31,11 +31,17 @@ build_engine() { # $1 = variant (rel|chk)
       > "$B/build-engine-$variant.log" 2>&1 || { tail -30 "$B/build-engine-$variant.log"; return 1; }
 }
 
+build_engine_asan() { # AddressSanitizer build (nightly toolchain); optional: a failure only skips the pass
+  ( cd "$VERIF_REPO" && RUSTFLAGS="$GUARD -Zsanitizer=address -Cforce-frame-pointers=yes" cargo +nightly build -q --release --offline \
+      --target x86_64-unknown-linux-gnu --target-dir "$B/engine-asan" ) > "$B/build-engine-asan.log" 2>&1
+}
+
 VH="$B/harness/release/vh"
 export VH_ENGINE_BIN="$B/engine-rel/release/rustybait"
 export VH_ENGINE_BIN_CHK="$B/engine-chk/release/rustybait"
 export VH_CHECKED_EXE="$B/harness/checked/vh"
 export VH_OVF_EXE="$B/harness/ovf/vh"
+export VH_ENGINE_BIN_ASAN=""
 
 if [ "$ID" = replay ]; then
   if ! build_harness release; then
@@ -76,6 +82,11 @@ case "$ID" in
     build_engine rel || inconclusive "engine build failed"
     build_engine chk || inconclusive "checked engine build failed";;
 esac
+if [ "$ID" = C15 ] && [ "$TIER" = thorough ]; then
+  rm -f "$B/engine-asan/x86_64-unknown-linux-gnu/release/rustybait"
+  if build_engine_asan; then export VH_ENGINE_BIN_ASAN="$B/engine-asan/x86_64-unknown-linux-gnu/release/rustybait"
+  else echo "NOTE: AddressSanitizer build failed (see .build/build-engine-asan.log); the sanitizer pass is skipped"; fi
+fi
 
 "$VH" run "$ID" "$TIER" "$SEED"
 rc=$?
